@@ -182,6 +182,57 @@ func (g *EvGen) deletionChain() []*mocrelay.Event {
 	return append(seq, cloneEv(x))
 }
 
+// nestedDeletion scripts a deletion request that names ANOTHER deletion request of the author (which itself names two
+// things) and, in a later tag, a retained event: removing the first request must not disturb the processing of the
+// second one's remaining tags.
+func (g *EvGen) nestedDeletion() []*mocrelay.Event {
+	r := g.r
+	author := pick(r, authors)
+	mk := func() *mocrelay.Event {
+		x := g.Event()
+		x.Pubkey = author
+		if r.P(30) {
+			x.Kind = 30023
+			x.Tags = g.tags(30023)
+		} else {
+			x.Kind, x.Tags = 1, g.tags(1)
+		}
+		return x
+	}
+	ref := func(x *mocrelay.Event) mocrelay.Tag {
+		if a := addrOf(x); a != "" && x.Kind >= 30000 && r.P(50) {
+			return mocrelay.Tag{"a", a}
+		}
+		return mocrelay.Tag{"e", x.ID}
+	}
+	del := func(tags ...mocrelay.Tag) *mocrelay.Event {
+		g.nextID++
+		e := &mocrelay.Event{ID: eventID(g.nextID), Pubkey: author, CreatedAt: int64(r.Range(1, 12)), Kind: 5, Content: "del", Sig: sig128(g.nextID), Tags: tags}
+		g.made = append(g.made, e)
+		return e
+	}
+	x, y, b, c := mk(), mk(), mk(), mk()
+	d1 := del(ref(x), ref(y))
+	var d2 *mocrelay.Event
+	switch r.Intn(3) {
+	case 0:
+		d2 = del(mocrelay.Tag{"e", d1.ID}, ref(b))
+	case 1:
+		d2 = del(ref(c), mocrelay.Tag{"e", d1.ID}, ref(b))
+	default:
+		d2 = del(mocrelay.Tag{"e", d1.ID}, ref(b), ref(c))
+	}
+	seq := []*mocrelay.Event{d1, b}
+	if r.P(60) {
+		seq = append(seq, c)
+	}
+	if r.P(30) {
+		seq = append([]*mocrelay.Event{x}, seq...)
+	}
+	seq = append(seq, d2, cloneEv(b), cloneEv(x))
+	return seq
+}
+
 // selfDeletion scripts a deletion request that names ITSELF among other targets (in any tag position): it leaves
 // the store while it is being processed, so nothing it names may stay blocked afterwards.  The targets are offered
 // before and again after the request.
